@@ -9,12 +9,12 @@ FAMILIES = [
     ("doy", ["12.5.", "12. mai", "may 12", "12th of may", "29.2."]),
     ("pod", ["morning", "evening", "abends", "night"]),
     ("absdate", ["8.5.2018", "08/05/2018", "8-5-2018", "8.5.18", "8. mai 2018", "may 8th 2018", "8th of may 2018"]),
-    ("clock", ["14:30", "8pm", "8 uhr", "20h", "1430", "8:30 am", "12 am", "eight", "acht uhr", "quarter past eight", "halb acht", "viertel vor neun"]),
+    ("clock", ["14:30", "8pm", "8 uhr", "20h", "1430", "8:30 am", "12 am", "eight", "acht uhr", "quarter past eight", "halb acht", "viertel vor neun", "5 o'clock", "17h"]),
     ("range", ["14:00-15:30", "9:00 to 17:00", "tomorrow 9 to 11", "between 3pm and 4pm", "von 9:00 bis 17:00", "8.5.2018 - 10.5.2018", "friday 8pm-9pm", "23:30-3:35"]),
     ("bound", ["before 5pm", "after monday", "bis 8.5.2018", "not before 17:00", "ab morgen"]),
-    ("duration", ["3 days", "two weeks", "half an hour", "eine nacht", "20 minutes"]),
+    ("duration", ["3 days", "two weeks", "half an hour", "eine nacht", "20 minutes", "99999999999 days", "5000000 months"]),
     ("fordur", ["8.5.2018 for 3 days", "tomorrow for 2 nights", "3 days 15.11.2018-18.11.2018"]),
-    ("daytime", ["monday 14:30", "tomorrow at 8pm", "8pm tomorrow", "am montag um 15 uhr", "8.5.2018 14:30", "heute abend", "tomorrow morning", "monday evening", "12.5. 8 uhr"]),
+    ("daytime", ["monday 14:30", "tomorrow at 8pm", "8pm tomorrow", "am montag um 15 uhr", "8.5.2018 14:30", "heute abend", "tomorrow morning", "monday evening", "12.5. 8 uhr", "tomorrow 5 o'clock", "8.5.2018 17h"]),
 ]
 
 
